@@ -121,13 +121,14 @@ class StubSim(mosaik_api_v3.Simulator):
         data = {}
         ent = {}
         want = outputs.get("e", [])
+        none_now = k in (sp.get("none_at") or ())
         if sp["type"] != "event-based" and "po" in want and sp.get("po", True):
-            ent["po"] = f"{self.sid}{k}"
+            ent["po"] = None if none_now else f"{self.sid}{k}"
         if sp["type"] != "time-based":
             d = _idx(sp.get("emit"), k, sp.get("emit_default"))
             if d is not None:
                 if "eo" in want:
-                    ent["eo"] = f"{self.sid}{k}e"
+                    ent["eo"] = None if none_now else f"{self.sid}{k}e"
                 if d != 0 or sp.get("explicit_time"):
                     data["time"] = self.time + d
         elif sp.get("explicit_time"):
